@@ -148,6 +148,26 @@ Proof.
   - intro Hle. apply orb_true_iff. left. apply Nat.leb_le, Hle.
 Qed.
 
+(* one-level projections of a directory's entries *)
+Fixpoint files_in (es : list (str * node)) : list (str * str * bool) :=
+  match es with
+  | [] => []
+  | (k, File c x) :: r => (k, c, x) :: files_in r
+  | _ :: r => files_in r
+  end.
+Fixpoint dirs_in (es : list (str * node)) : list (str * node) :=
+  match es with
+  | [] => []
+  | (k, Dir d) :: r => (k, Dir d) :: dirs_in r
+  | _ :: r => dirs_in r
+  end.
+Fixpoint links_in (es : list (str * node)) : list (str * str) :=
+  match es with
+  | [] => []
+  | (k, Link t) :: r => (k, t) :: links_in r
+  | _ :: r => links_in r
+  end.
+
 (* ------------------------------------------------------------------ model-level facts that need no
    assumption on the digest / serialisation functions *)
 Section Generic.
@@ -308,6 +328,341 @@ Section Injective.
       + apply str_eqb_eq, H_inj in E. subst; reflexivity.
       + rewrite (cas_written_get c st Hs). reflexivity.
   Qed.
+
+  (* ---------------- directory outputs *)
+  Notation dir_msg_of := (dir_msg_of H ser_dir).
+  Notation child_key := (child_key H ser_dir).
+  Notation dig := (dig H).
+
+  Definition mkF (e : str * str * bool) : file_node := mkFileNode (fst (fst e)) (dig (snd (fst e))) (snd e).
+  Definition mkD (e : str * node) : dir_node := mkDirNode (fst e) (dig (ser_dir (dir_msg_of (snd e)))).
+  Definition mkL (e : str * str) : link_node := mkLinkNode (fst e) (snd e).
+  Definition fE (e : str * str * bool) : str * node := (fst (fst e), File (snd (fst e)) (snd e)).
+  Definition lE (e : str * str) : str * node := (fst e, Link (snd e)).
+  Definition nentry (e : str * node) : str * node := (fst e, normalise (snd e)).
+
+  Lemma dir_msg_of_dir es :
+    dir_msg_of (Dir es) =
+    mkDirMsg (sort_by fn_name (map mkF (files_in es))) (sort_by dn_name (map mkD (dirs_in es)))
+             (sort_by ln_name (map mkL (links_in es))).
+  Proof.
+    cbn [Tree.dir_msg_of]. f_equal; f_equal.
+    - induction es as [|[k e] es IH]; [reflexivity|]. destruct e; cbn [files_in map app]; rewrite IH; reflexivity.
+    - induction es as [|[k e] es IH]; [reflexivity|]. destruct e; cbn [dirs_in map app]; rewrite IH; reflexivity.
+    - induction es as [|[k e] es IH]; [reflexivity|]. destruct e; cbn [links_in map app]; rewrite IH; reflexivity.
+  Qed.
+
+  Lemma normalise_dir es : normalise (Dir es) = Dir (sort_by fst (map nentry es)).
+  Proof.
+    cbn [normalise]. f_equal. f_equal.
+    induction es as [|[k e] es IH]; [reflexivity|]. cbn [map]. rewrite IH. reflexivity.
+  Qed.
+
+  Lemma entries_split es :
+    Permutation (map fE (files_in es) ++ map nentry (dirs_in es) ++ map lE (links_in es)) (map nentry es).
+  Proof.
+    induction es as [|[k e] es IH]; [constructor|]. destruct e as [c x|d|t]; cbn [files_in dirs_in links_in map].
+    - cbn [app]. apply perm_skip, IH.
+    - cbn [app]. apply Permutation_sym.
+      eapply perm_trans; [apply perm_skip, Permutation_sym, IH|]. apply Permutation_middle.
+    - rewrite app_assoc in IH. rewrite app_assoc. apply Permutation_sym.
+      eapply perm_trans; [apply perm_skip, Permutation_sym, IH|]. apply Permutation_middle.
+  Qed.
+
+  Lemma nentry_keys es : map fst (map nentry es) = map fst es.
+  Proof. rewrite map_map. reflexivity. Qed.
+
+  (* sub-structure *)
+  Lemma in_dirs_in k e es : In (k, e) (dirs_in es) -> In (k, e) es /\ exists d, e = Dir d.
+  Proof.
+    induction es as [|[k' e'] es IH]; [intros []|]. destruct e'; cbn [dirs_in]; intro Hi.
+    - destruct (IH Hi) as [H1 H2]. split; [right; exact H1 | exact H2].
+    - destruct Hi as [Hi|Hi].
+      + inversion Hi; subst. split; [left; reflexivity | eexists; reflexivity].
+      + destruct (IH Hi) as [H1 H2]. split; [right; exact H1 | exact H2].
+    - destruct (IH Hi) as [H1 H2]. split; [right; exact H1 | exact H2].
+  Qed.
+
+  Lemma files_in_files_of e es : In e (files_in es) -> In (snd (fst e)) (files_of (Dir es)).
+  Proof.
+    cbn [files_of]. induction es as [|[k' e'] es IH]; [intros []|]. destruct e'; cbn [files_in files_of]; intro Hi.
+    - destruct Hi as [<-|Hi]; [left; reflexivity | right; apply IH, Hi].
+    - apply in_or_app; right. apply IH, Hi.
+    - apply IH, Hi.
+  Qed.
+
+  Lemma files_of_sub k e es c : In (k, e) es -> In c (files_of e) -> In c (files_of (Dir es)).
+  Proof.
+    cbn [files_of]. induction es as [|[k' e'] es IH]; [intros []|]. intros [Hi|Hi] Hc.
+    - inversion Hi; subst. apply in_or_app; left; exact Hc.
+    - apply in_or_app; right. apply IH; assumption.
+  Qed.
+
+  Lemma subdirs_sub k e es s : In (k, e) es -> In s (subdirs e) -> In s (subdirs (Dir es)).
+  Proof.
+    cbn [subdirs]. induction es as [|[k' e'] es IH]; [intros []|]. intros [Hi|Hi] Hs.
+    - inversion Hi; subst. apply in_or_app; left. destruct e; try (destruct Hs; fail).
+      apply in_or_app; left; exact Hs.
+    - apply in_or_app; right. apply IH; assumption.
+  Qed.
+
+  Lemma subdirs_self k d es : In (k, Dir d) es -> In (Dir d) (subdirs (Dir es)).
+  Proof.
+    cbn [subdirs]. induction es as [|[k' e'] es IH]; [intros []|]. intros [Hi|Hi].
+    - inversion Hi; subst. apply in_or_app; left. apply in_or_app; right. left; reflexivity.
+    - apply in_or_app; right. apply IH; assumption.
+  Qed.
+
+  Lemma depth_sub k e es : In (k, e) es -> depth e < depth (Dir es).
+  Proof.
+    cbn [depth]. induction es as [|[k' e'] es IH]; [intros []|]. intros [Hi|Hi].
+    - inversion Hi; subst. lia.
+    - specialize (IH Hi). lia.
+  Qed.
+
+  Lemma wf_sub k e es : wf_tree (Dir es) -> In (k, e) es -> wf_tree e.
+  Proof.
+    cbn [wf_tree]. intros [_ Hw]. induction es as [|[k' e'] es IH]; [intros []|].
+    destruct Hw as [_ [He Hr]]. intros [Hi|Hi]; [inversion Hi; subst; exact He | apply IH; assumption].
+  Qed.
+
+  Lemma wf_nodup es : wf_tree (Dir es) -> NoDup (map fst es).
+  Proof. cbn [wf_tree]. tauto. Qed.
+
+  (* the pieces of loadDirectoryRecursive *)
+  Lemma loaded_files_ok st l :
+    (forall e, In e l -> cas_get st (H (snd (fst e))) = Some (snd (fst e))) ->
+    loaded_files st (map mkF l) = map fE l /\ failed_files st (map mkF l) = 0.
+  Proof.
+    induction l as [|e l IH]; intro Hc; [split; reflexivity|].
+    cbn [map loaded_files failed_files mkF fn_digest d_hash Tree.dig fn_name fn_exec].
+    rewrite (Hc e (or_introl eq_refl)).
+    destruct IH as [I1 I2]; [intros e' He'; apply Hc; right; exact He'|].
+    split; [rewrite I1; reflexivity | exact I2].
+  Qed.
+
+  Lemma load_dirs_ok rec cm l :
+    (forall e, In e l ->
+       cm_lookup cm (child_key (dir_msg_of (snd e))) = Some (dir_msg_of (snd e)) /\
+       exists es', normalise (snd e) = Dir es' /\ rec (dir_msg_of (snd e)) = Some (es', 0)) ->
+    load_dirs rec cm (map mkD l) = Some (map nentry l, 0).
+  Proof.
+    induction l as [|e l IH]; intro Hc; [reflexivity|].
+    cbn [map load_dirs mkD dn_digest d_hash Tree.dig dn_name].
+    destruct (Hc e (or_introl eq_refl)) as [Hl [es' [Hn Hr]]].
+    unfold Tree.child_key in Hl. rewrite Hl, Hr.
+    rewrite IH by (intros e' He'; apply Hc; right; exact He').
+    change (nentry e) with (fst e, normalise (snd e)). rewrite Hn. reflexivity.
+  Qed.
+
+  Lemma load_dir_ok cm st n :
+    wf_tree n -> forall es, n = Dir es -> forall fuel, depth n <= fuel ->
+    (forall c, In c (files_of n) -> cas_get st (H c) = Some c) ->
+    (forall s, In s (subdirs n) -> cm_lookup cm (child_key (dir_msg_of s)) = Some (dir_msg_of s)) ->
+    exists es', normalise n = Dir es' /\ load_dir fuel cm st (dir_msg_of n) = Some (es', 0).
+  Proof.
+    induction n as [c x|t|es0 IH] using node_ind'; intros Hwf es En; try discriminate.
+    inversion En; subst es0. clear En. intros fuel Hd Hfiles Hsubs.
+    destruct fuel as [|fuel]; [cbn [depth] in Hd; lia|].
+    rewrite normalise_dir. eexists; split; [reflexivity|].
+    rewrite dir_msg_of_dir. cbn [load_dir dm_dirs dm_files dm_links].
+    rewrite (sort_by_map fst dn_name mkD) by reflexivity.
+    rewrite (sort_by_map (fun e => fst (fst e)) fn_name mkF) by reflexivity.
+    rewrite (sort_by_map fst ln_name mkL) by reflexivity.
+    rewrite (load_dirs_ok (load_dir fuel cm st) cm).
+    - destruct (loaded_files_ok st (sort_by (fun e => fst (fst e)) (files_in es))) as [L1 L2].
+      { intros e He. apply Hfiles. apply files_in_files_of.
+        eapply Permutation_in; [apply sort_by_perm | exact He]. }
+      rewrite L1, L2. cbn [Nat.add]. f_equal. f_equal.
+      rewrite map_map. cbn [mkL ln_name ln_target].
+      change (map (fun x : str * str => (fst x, Link (snd x)))) with (map lE).
+      apply sort_by_perm_eq.
+      + eapply perm_trans; [|apply entries_split].
+        apply Permutation_app; [apply Permutation_map, sort_by_perm|].
+        apply Permutation_app; apply Permutation_map, sort_by_perm.
+      + eapply (perm_nodup_keys fst (map nentry es)).
+        * apply Permutation_sym. eapply perm_trans; [|apply entries_split].
+          apply Permutation_app; [apply Permutation_map, sort_by_perm|].
+          apply Permutation_app; apply Permutation_map, sort_by_perm.
+        * rewrite nentry_keys. apply wf_nodup, Hwf.
+    - intros [k e] He. cbn [snd].
+      apply (Permutation_in _ (sort_by_perm fst (dirs_in es))) in He.
+      apply in_dirs_in in He as [Hin [d Ed]]. subst e. split.
+      + apply Hsubs. exact (subdirs_self k d es Hin).
+      + rewrite Forall_forall in IH. eapply (IH (k, Dir d) Hin).
+        * eapply wf_sub; [exact Hwf | exact Hin].
+        * reflexivity.
+        * pose proof (depth_sub _ _ _ Hin). lia.
+        * intros c Hc. apply Hfiles. eapply files_of_sub; [exact Hin | exact Hc].
+        * intros s Hs. apply Hsubs. eapply subdirs_sub; [exact Hin | exact Hs].
+  Qed.
+
+  (* the store after Write *)
+  Lemma cas_put_files_sound cs st : cas_sound H st -> cas_sound H (cas_put_files H cs st).
+  Proof.
+    intro Hs. induction cs as [|c cs IH]; [exact Hs|]. cbn [cas_put_files fold_right].
+    apply cas_sound_put; [exact IH | reflexivity].
+  Qed.
+
+  Lemma cas_put_files_get cs st c :
+    cas_sound H st -> In c cs -> cas_get (cas_put_files H cs st) (H c) = Some c.
+  Proof.
+    intro Hs. induction cs as [|c' cs IH]; [intros []|]. cbn [cas_put_files fold_right]. intros [->|Hi].
+    - apply cas_written_get. apply (cas_put_files_sound cs st Hs).
+    - apply cas_get_put_keep. apply IH, Hi.
+  Qed.
+
+  (* the children map *)
+  Lemma dedup_keys_in l : forall seen e, In e (dedup_keys seen l) -> In e l.
+  Proof.
+    induction l as [|[k v] l IH]; intros seen e; cbn [dedup_keys]; [intros []|].
+    destruct (str_in k seen); [intro Hi; right; eapply IH, Hi|].
+    intros [<-|Hi]; [left; reflexivity | right; eapply IH, Hi].
+  Qed.
+
+  Lemma dedup_keys_complete l : forall seen k,
+    In k (map fst l) -> ~ In k seen -> In k (map fst (dedup_keys seen l)).
+  Proof.
+    induction l as [|[k' v] l IH]; intros seen k; cbn [dedup_keys map fst]; [intros []|].
+    intros Hi Hn. destruct (str_in k' seen) eqn:E.
+    - destruct Hi as [<-|Hi]; [apply str_in_spec in E; contradiction | apply IH; assumption].
+    - cbn [map fst]. destruct (str_eqb k' k) eqn:E2.
+      + apply str_eqb_eq in E2. left; exact E2.
+      + destruct Hi as [Hi|Hi]; [subst; rewrite str_eqb_refl in E2; discriminate|].
+        right. apply IH; [exact Hi|]. intros [Hx|Hx]; [subst; rewrite str_eqb_refl in E2; discriminate | contradiction].
+  Qed.
+
+  Lemma children_lookup t s :
+    In s (subdirs t) ->
+    cm_lookup (map (fun c => (child_key c, c)) (children_of H ser_dir t)) (child_key (dir_msg_of s)) = Some (dir_msg_of s).
+  Proof.
+    intro Hs. unfold children_of.
+    set (L := map (fun d => (child_key d, d)) (map dir_msg_of (subdirs t))).
+    set (X := sort_by fst (dedup_keys [] L)).
+    assert (HA : forall e, In e X -> fst e = child_key (snd e)).
+    { intros e He. apply (Permutation_in _ (sort_by_perm fst _)) in He. apply dedup_keys_in in He.
+      unfold L in He. apply in_map_iff in He as [d [<- _]]. reflexivity. }
+    assert (HX : map (fun c => (child_key c, c)) (map snd X) = X).
+    { rewrite map_map. rewrite <- (map_id X) at 2. apply map_ext_in. intros [k v] He.
+      specialize (HA _ He). cbn [fst snd] in *. subst k. reflexivity. }
+    rewrite HX.
+    assert (HB : In (child_key (dir_msg_of s)) (map fst X)).
+    { eapply Permutation_in; [apply Permutation_map, Permutation_sym, sort_by_perm|].
+      apply dedup_keys_complete; [|intros []]. unfold L. rewrite map_map, map_map. cbn [fst].
+      apply in_map_iff. exists s. split; [reflexivity | exact Hs]. }
+    destruct (cm_lookup X (child_key (dir_msg_of s))) as [v|] eqn:E.
+    - apply cm_lookup_some in E. specialize (HA _ E). cbn [fst snd] in HA.
+      unfold Tree.child_key in HA. apply H_inj, ser_dir_inj in HA. congruence.
+    - exfalso. apply in_map_iff in HB as [[k v] [Ek Hin]]. cbn [fst] in Ek. subst k.
+      exact (cm_lookup_none _ _ E v Hin).
+  Qed.
+
+  (* after a successful Write, fetching the tree reproduces the canonical listing *)
+  Lemma fetch_ok es st maxdepth :
+    wf_tree (Dir es) -> cas_sound H st -> depth (Dir es) <= maxdepth ->
+    let m := tree_msg_of H ser_dir (Dir es) in
+    fetch_tree H ser_dir deser_tree maxdepth (H (ser_tree m))
+      (cas_put (H (ser_tree m)) (ser_tree m) (cas_put_files H (files_of (Dir es)) st)) = Done (normalise (Dir es)).
+  Proof.
+    intros Hwf Hs Hd m. unfold fetch_tree.
+    rewrite cas_written_get by (apply cas_put_files_sound, Hs).
+    rewrite deser_ser. unfold Tree.load_tree_msg.
+    destruct (load_dir_ok (map (fun c => (child_key c, c)) (tm_children m))
+                (cas_put (H (ser_tree m)) (ser_tree m) (cas_put_files H (files_of (Dir es)) st))
+                (Dir es) Hwf es eq_refl maxdepth Hd) as [es' [Hn Hl]].
+    - intros c Hc. apply cas_get_put_keep. apply cas_put_files_get; assumption.
+    - intros s Hsub. apply children_lookup, Hsub.
+    - unfold m at 2. cbn [tree_msg_of tm_root]. rewrite Hl. cbn [Nat.eqb]. rewrite Hn. reflexivity.
+  Qed.
+
+  (* ---------------- the digest is faithful *)
+  Lemma mkF_inj x y : mkF x = mkF y -> x = y.
+  Proof.
+    destruct x as [[k c] x], y as [[k' c'] x']. unfold mkF, Tree.dig. cbn [fst snd]. intro E.
+    inversion E as [[E1 E2 E3 E4]]. apply H_inj in E2. congruence.
+  Qed.
+
+  Lemma mkL_inj x y : mkL x = mkL y -> x = y.
+  Proof. destruct x, y. unfold mkL. cbn [fst snd]. intro E. inversion E. reflexivity. Qed.
+
+  Lemma sort_eq_perm {A} (key : A -> str) l l' : sort_by key l = sort_by key l' -> Permutation l l'.
+  Proof.
+    intro E. eapply perm_trans; [apply Permutation_sym, sort_by_perm|]. rewrite E. apply sort_by_perm.
+  Qed.
+
+  Lemma perm_map_inj {A B} (f : A -> B) (g : A -> str * node) l l' :
+    (forall x y, f x = f y -> x = y) -> Permutation (map f l) (map f l') -> Permutation (map g l) (map g l').
+  Proof.
+    intros Hf Hp. apply Permutation_map_inv in Hp as [l3 [E Hp]].
+    apply (map_inj_eq f Hf) in E. subst l3. apply Permutation_map, Permutation_sym, Hp.
+  Qed.
+
+  Lemma dir_msg_inj n1 :
+    wf_tree n1 -> forall es1, n1 = Dir es1 -> forall es2, wf_tree (Dir es2) ->
+    dir_msg_of (Dir es1) = dir_msg_of (Dir es2) -> normalise (Dir es1) = normalise (Dir es2).
+  Proof.
+    induction n1 as [c x|t|es0 IH] using node_ind'; intros Hwf es1 En; try discriminate.
+    inversion En; subst es0; clear En. intros es2 Hwf2 E.
+    rewrite !dir_msg_of_dir in E. inversion E as [[EF ED EL]]. clear E.
+    rewrite !normalise_dir. f_equal. apply sort_by_perm_eq; [|rewrite nentry_keys; apply wf_nodup, Hwf].
+    eapply perm_trans; [apply Permutation_sym, entries_split|].
+    eapply perm_trans; [|apply entries_split].
+    apply Permutation_app; [|apply Permutation_app].
+    - apply (perm_map_inj mkF fE _ _ mkF_inj). apply (sort_eq_perm _ _ _ EF).
+    - apply sort_eq_perm in ED. apply Permutation_map_inv in ED as [l3 [E3 Hp3]].
+      eapply perm_trans; [|apply Permutation_map, Permutation_sym, Hp3].
+      assert (Em : map nentry (dirs_in es1) = map nentry l3); [|rewrite Em; apply Permutation_refl].
+      assert (Hl3 : forall e, In e l3 -> In e es2 /\ exists d, snd e = Dir d).
+      { intros [k e] He. apply (Permutation_in _ (Permutation_sym Hp3)) in He.
+        apply in_dirs_in in He as [H1 [d H2]]. split; [exact H1 | exists d; exact H2]. }
+      assert (Hl1 : forall e, In e (dirs_in es1) -> In e es1 /\ exists d, snd e = Dir d).
+      { intros [k e] He. apply in_dirs_in in He as [H1 [d H2]]. split; [exact H1 | exists d; exact H2]. }
+      revert l3 E3 Hl3 Hp3. generalize dependent (dirs_in es1). intros D1 Hl1.
+      induction D1 as [|[k1 e1] D1 IHD]; intros [|[k3 e3] l3] E3 Hl3 Hp3; cbn [map] in E3; try discriminate; [reflexivity|].
+      inversion E3 as [[Ek Eh Es Er]]. cbn [map]. f_equal.
+      + unfold nentry. cbn [fst snd]. f_equal.
+        apply H_inj, ser_dir_inj in Eh.
+        destruct (Hl1 (k1, e1) (or_introl eq_refl)) as [Hin1 [d1 Ed1]].
+        destruct (Hl3 (k3, e3) (or_introl eq_refl)) as [Hin3 [d3 Ed3]].
+        cbn [snd] in Ed1, Ed3. subst e1 e3.
+        rewrite Forall_forall in IH. apply (IH (k1, Dir d1) Hin1).
+        * eapply wf_sub; [exact Hwf | exact Hin1].
+        * reflexivity.
+        * eapply wf_sub; [exact Hwf2 | exact Hin3].
+        * exact Eh.
+      + apply (IHD (fun e He => Hl1 e (or_intror He)) l3 Er (fun e He => Hl3 e (or_intror He))).
+        apply Permutation_refl.
+    - apply (perm_map_inj mkL lE _ _ mkL_inj). apply (sort_eq_perm _ _ _ EL).
+  Qed.
+
+  Theorem digest_faithful es1 es2 :
+    wf_tree (Dir es1) -> wf_tree (Dir es2) ->
+    tree_digest H ser_dir ser_tree (Dir es1) = tree_digest H ser_dir ser_tree (Dir es2) ->
+    normalise (Dir es1) = normalise (Dir es2).
+  Proof.
+    intros H1 H2 E. unfold tree_digest in E. apply H_inj, ser_tree_inj in E.
+    apply (f_equal tm_root) in E. cbn [tree_msg_of tm_root] in E.
+    exact (dir_msg_inj (Dir es1) H1 es1 eq_refl es2 H2 E).
+  Qed.
+
+  (* ---------------- C06, directory outputs *)
+  Theorem dir_roundtrip t st st' ref maxdepth :
+    wf_tree t -> cas_sound H st -> depth t <= maxdepth ->
+    write_tree H ser_dir ser_tree t st = Some (st', ref) ->
+    forall dest, wf_dest dest ->
+    load_tree H ser_dir ser_tree deser_tree maxdepth ref st' dest = Done (normalise t).
+  Proof.
+    intros Hwf Hs Hd Hw dest Hdest. unfold write_tree in Hw.
+    destruct t as [c x|es|tg]; try discriminate.
+    destruct (names_ok (Dir es)); [|discriminate]. inversion Hw; subst st' ref. clear Hw.
+    pose proof (fetch_ok es st maxdepth Hwf Hs Hd) as Hf. cbv zeta in Hf.
+    destruct dest as [| |c x|es2]; cbn [load_tree]; try exact Hf.
+    destruct (names_ok (Dir es2) && str_eqb (tree_digest H ser_dir ser_tree (Dir es2)) (H (ser_tree (tree_msg_of H ser_dir (Dir es))))) eqn:E;
+      [|exact Hf].
+    apply andb_true_iff in E as [_ E]. apply str_eqb_eq in E. f_equal.
+    apply digest_faithful; [exact Hdest | exact Hwf | exact E].
+  Qed.
+
 End Injective.
 
 (* ------------------------------------------------------------------ refutations on the faithful model,
@@ -338,21 +693,25 @@ Proof. exists (s1 "x"), false, []. vm_compute. reflexivity. Qed.
 (* flat directory, one file, its blob lost from the cache: the restore never returns *)
 Definition flat_tree : node := Dir [(s1 "a", File (s1 "x") false)].
 Theorem restore_terminates_refuted :
-  exists t st st' ref,
-    wf_tree t /\ write_tree Hid enc_dir enc_tree t st = Some (st', ref) /\
-    load_tree Hid enc_dir enc_tree dec_tree max_depth ref (cas_del (Hid (s1 "x")) st') DAbsent = Stuck.
+  exists t st,
+    wf_tree t /\
+    match write_tree Hid enc_dir enc_tree t st with
+    | Some (st', ref) =>
+        load_tree Hid enc_dir enc_tree dec_tree max_depth ref (cas_del (Hid (s1 "x")) st') DAbsent = Stuck
+    | None => False
+    end.
 Proof.
-  exists flat_tree, [].
-  eexists. eexists. split; [|split].
+  exists flat_tree, []. split.
   - simpl. split; [repeat constructor; simpl; tauto|]. repeat split; try discriminate.
     simpl. intros [E|[]]. discriminate.
-  - vm_compute. reflexivity.
   - vm_compute. reflexivity.
 Qed.
 
 (* the same directory with one (empty) sub-directory next to the file: capacity 1, the call returns an error *)
 Theorem restore_one_subdir_returns :
-  exists st' ref,
-    write_tree Hid enc_dir enc_tree (Dir [(s1 "a", File (s1 "x") false); (s1 "d", Dir [])]) [] = Some (st', ref) /\
-    load_tree Hid enc_dir enc_tree dec_tree max_depth ref (cas_del (Hid (s1 "x")) st') DAbsent = Error.
-Proof. eexists. eexists. split; vm_compute; reflexivity. Qed.
+  match write_tree Hid enc_dir enc_tree (Dir [(s1 "a", File (s1 "x") false); (s1 "d", Dir [])]) [] with
+  | Some (st', ref) =>
+      load_tree Hid enc_dir enc_tree dec_tree max_depth ref (cas_del (Hid (s1 "x")) st') DAbsent = Error
+  | None => False
+  end.
+Proof. vm_compute. reflexivity. Qed.
